@@ -814,7 +814,7 @@ fn one<C: Col, W: Wrap<C>>(rec: &mut Rec, comps: &[C::P], alpha: C::P, light: bo
     let (keys, depth, huenum) = json_obs(&jtext);
     rt_ev::<C, W>(rec, "json", W::NAME, false, comps, a, att(|| de_json::<W::V>(&jtext)), Obs { keys, depth, huenum, text: jtext.clone() });
     let rtext = att(|| ron::to_string(&v).map_err(|e| e.to_string()));
-    rt_ev::<C, W>(rec, "ron", W::NAME, false, comps, a, att(|| de_ron::<W::V>(&rtext.clone().map_err(|e| e)??)), Obs::none());
+    rt_ev::<C, W>(rec, "ron", W::NAME, false, comps, a, att(|| de_ron::<W::V>(&rtext.clone()??)), Obs::none());
     if !light {
         let seq_text = format!("[{}]", nitems(&tree).iter().map(tree_json).collect::<Vec<_>>().join(","));
         rt_ev::<C, W>(rec, "json_seq", W::NAME, false, comps, a, att(|| de_json::<W::V>(&seq_text)), Obs::none());
@@ -861,4 +861,323 @@ fn sweep<C: Col, W: Wrap<C>>(rec: &mut Rec, seed: u64, n: usize) {
         };
         one::<C, W>(rec, &comps, alpha, k >= ex.len() && k % 4 != 0);
     }
+}
+
+// ------------------------------------------------------------------------------------------------ every tree shape under Alpha
+
+mod shapes {
+    use serde::{Deserialize, Serialize};
+    #[derive(Serialize, Deserialize)]
+    pub struct Empty;
+    #[derive(Serialize, Deserialize)]
+    pub struct UnitTuple();
+    #[derive(Serialize, Deserialize)]
+    pub struct Newtype(pub f32);
+    #[derive(Serialize, Deserialize)]
+    pub struct Pair(pub f32, pub f32);
+    #[derive(Serialize, Deserialize)]
+    pub struct Single { pub value: f32 }
+}
+
+fn flat_one<T: Serialize + DeserializeOwned>(rec: &mut Rec, shape: &str, inner: T, a: f32) {
+    let base = att(|| inner.serialize(TSer).map_err(|e| e.0));
+    let basen = match &base { Ok(Ok(t)) => t.clone(), _ => err_node(&msg(&base)) };
+    let v = Alpha { color: inner, alpha: a };
+    let tr = att(|| v.serialize(TSer).map_err(|e| e.0));
+    let tree = match &tr { Ok(Ok(t)) => t.clone(), _ => err_node(&msg(&tr)) };
+    rec.ev(json!({"ev": "flat", "shape": shape, "prim": "f32", "alpha": a.hex(), "ok": okstr(&tr), "base": basen, "tree": tree, "msg": msg(&tr)}));
+    let mut back = |fmt: &str, r: Att<Alpha<T, f32>>| {
+        let t2 = match &r { Ok(Ok(v2)) => v2.serialize(TSer).unwrap_or_else(|e| err_node(&e.0)), _ => err_node("") };
+        rec.ev(json!({"ev": "flatrt", "shape": shape, "fmt": fmt, "basek": nk(&basen), "ok": okstr(&r), "tree": tree, "tree2": t2, "msg": msg(&r)}));
+    };
+    back("rec", att(|| de_tree(&tree)));
+    back("compact", att(|| de_compact(&ser_compact(&v)?)));
+    back("json", att(|| de_json(&serde_json::to_string(&v).map_err(|e| e.to_string())?)));
+    back("ron", att(|| de_ron(&ron::to_string(&v).map_err(|e| e.to_string())?)));
+    back("ron_named", att(|| de_ron(&named_ron(&v)?)));
+}
+
+fn flat_shapes(rec: &mut Rec, seed: u64, n: usize) {
+    let mut rng = Sm64::new(tyseed(seed, "shapes", "", ""));
+    let ex = f32::extremes();
+    for k in 0..(ex.len() + n) {
+        let mut x = |j: usize| if k < ex.len() { ex[(k + j) % ex.len()] } else { f32::random(&mut rng) };
+        let (a, p, q, r) = (x(0), x(1), x(2), x(3));
+        flat_one(rec, "unit", (), a);
+        flat_one(rec, "unit_struct", shapes::Empty, a);
+        flat_one(rec, "empty_tuple_struct", shapes::UnitTuple(), a);
+        flat_one(rec, "newtype", shapes::Newtype(p), a);
+        flat_one(rec, "tuple_struct", shapes::Pair(p, q), a);
+        flat_one(rec, "struct", shapes::Single { value: p }, a);
+        flat_one(rec, "tuple", (p, q), a);
+        flat_one(rec, "array", [p, q, r], a);
+        let mut m = std::collections::BTreeMap::new();
+        m.insert("first".to_string(), p);
+        m.insert("second".to_string(), q);
+        flat_one(rec, "map", m, a);
+    }
+}
+
+// ------------------------------------------------------------------------------------------------ as_array / as_uint helpers
+
+use palette::cast::{self, ArrayCast, UintCast};
+
+#[derive(Serialize, Deserialize)]
+#[serde(bound(serialize = "V: ArrayCast, V::Array: Serialize", deserialize = "V: ArrayCast, V::Array: Deserialize<'de>"))]
+struct HoldArr<V> {
+    #[serde(with = "palette::serde::as_array")]
+    c: V,
+}
+#[derive(Serialize, Deserialize)]
+#[serde(bound(serialize = "V: UintCast, V::Uint: Serialize", deserialize = "V: UintCast, V::Uint: Deserialize<'de>"))]
+struct HoldUint<V> {
+    #[serde(with = "palette::serde::as_uint")]
+    c: V,
+}
+
+fn arr_one<C: Col, W: Wrap<C>>(rec: &mut Rec, comps: &[C::P], alpha: C::P)
+where
+    W::V: ArrayCast,
+    <W::V as ArrayCast>::Array: Serialize + DeserializeOwned + AsRef<[C::P]>,
+{
+    let a = if W::NAME != "plain" { Some(alpha) } else { None };
+    let v = W::build(C::make(comps), alpha);
+    let castv: Vec<String> = cast::into_array_ref(&v).as_ref().iter().map(|x| x.hex()).collect();
+    let tr = att(|| palette::serde::serialize_as_array(&v, TSer).map_err(|e| e.0));
+    let tree = match &tr { Ok(Ok(t)) => t.clone(), _ => err_node(&msg(&tr)) };
+    rec.ev(json!({"ev": "arr", "ty": C::TY, "prim": C::P::NAME, "wrap": W::NAME, "decl": C::decl(),
+        "in": comps.iter().map(|x| x.hex()).collect::<Vec<_>>(), "ina": a.map(|x| x.hex()).unwrap_or_default(),
+        "cast": castv, "ok": okstr(&tr), "tree": tree, "msg": msg(&tr)}));
+    let h = HoldArr { c: v };
+    let jt = serde_json::to_string(&h).unwrap_or_default();
+    let (_, depth, _) = json_obs(&jt);
+    rt_ev::<C, W>(rec, "json_arr", W::NAME, false, comps, a, att(|| de_json::<HoldArr<W::V>>(&jt).map(|h| h.c)),
+                  Obs { keys: vec![], depth, huenum: 0, text: jt.clone() });
+    rt_ev::<C, W>(rec, "ron_arr", W::NAME, false, comps, a, att(|| de_ron::<HoldArr<W::V>>(&ron::to_string(&h).map_err(|e| e.to_string())?).map(|h| h.c)), Obs::none());
+    rt_ev::<C, W>(rec, "rec_arr", W::NAME, false, comps, a,
+                  att(|| palette::serde::deserialize_as_array::<W::V, _>(TDe(&tree)).map_err(|e| e.0)), Obs::none());
+    rt_ev::<C, W>(rec, "compact_arr", W::NAME, false, comps, a, att(|| de_compact::<HoldArr<W::V>>(&ser_compact(&h)?).map(|h| h.c)), Obs::none());
+}
+
+fn arr_sweep<C: Col, W: Wrap<C>>(rec: &mut Rec, seed: u64, n: usize)
+where
+    W::V: ArrayCast,
+    <W::V as ArrayCast>::Array: Serialize + DeserializeOwned + AsRef<[C::P]>,
+{
+    let nf = C::decl().len();
+    let ex = C::P::extremes();
+    let mut rng = Sm64::new(tyseed(seed, C::TY, C::P::NAME, W::NAME) ^ 0xa55a);
+    for k in 0..(ex.len() + n) {
+        let (comps, alpha): (Vec<C::P>, C::P) = if k < ex.len() {
+            ((0..nf).map(|i| ex[(k + i) % ex.len()]).collect(), ex[(k + nf) % ex.len()])
+        } else {
+            ((0..nf).map(|_| C::P::random(&mut rng)).collect(), C::P::random(&mut rng))
+        };
+        arr_one::<C, W>(rec, &comps, alpha);
+    }
+}
+
+/// one packed value through as_uint; `ch` are the channel bit patterns by name
+fn uint_one<V>(rec: &mut Rec, order: &str, v: V, ch: Value, chans: impl Fn(&V) -> Value)
+where
+    V: UintCast + Copy,
+    V::Uint: Serialize + DeserializeOwned + Copy,
+{
+    let hexu = |u: V::Uint| -> (String, String) { let n = u.serialize(TSer).unwrap(); (nname(&n).to_string(), nnum(&n).to_string()) };
+    let (uprim, castu) = hexu(cast::into_uint(v));
+    let tr = att(|| palette::serde::serialize_as_uint(&v, TSer).map_err(|e| e.0));
+    let tree = match &tr { Ok(Ok(t)) => t.clone(), _ => err_node(&msg(&tr)) };
+    let h = HoldUint { c: v };
+    let mut emit = |fmt: &str, r: Att<V>| {
+        let (back, ch2) = match &r { Ok(Ok(v2)) => (hexu(cast::into_uint(*v2)).1, chans(v2)), _ => (String::new(), chans(&v)) };
+        rec.ev(json!({"ev": "uint", "fmt": fmt, "order": order, "uprim": uprim, "ch": ch, "cast": castu, "tree": tree,
+            "ok": okstr(&r), "back": back, "ch2": ch2, "msg": msg(&r)}));
+    };
+    emit("rec", att(|| palette::serde::deserialize_as_uint::<V, _>(TDe(&tree)).map_err(|e| e.0)));
+    emit("json", att(|| de_json::<HoldUint<V>>(&serde_json::to_string(&h).map_err(|e| e.to_string())?).map(|h| h.c)));
+    emit("ron", att(|| de_ron::<HoldUint<V>>(&ron::to_string(&h).map_err(|e| e.to_string())?).map(|h| h.c)));
+    emit("compact", att(|| de_compact::<HoldUint<V>>(&ser_compact(&h)?).map(|h| h.c)));
+}
+
+fn chrec(r: &str, g: &str, b: &str, a: &str, l: &str) -> Value { json!({"r": r, "g": g, "b": b, "a": a, "l": l}) }
+
+fn uint_sweep(rec: &mut Rec, seed: u64, n: usize) {
+    use palette::luma::{Luma, Lumaa, PackedAluma, PackedLumaa};
+    use palette::rgb::{PackedAbgr, PackedArgb, PackedBgra, PackedRgba};
+    use palette::Srgba;
+    let mut rng = Sm64::new(tyseed(seed, "uint", "", ""));
+    let ex8 = u8::extremes();
+    for k in 0..(ex8.len() + n) {
+        let mut x = |j: usize| if k < ex8.len() { ex8[(k + j) % ex8.len()] } else { u8::random(&mut rng) };
+        let (r, g, b, a) = (x(0), x(1), x(2), x(3));
+        let c = Srgba::<u8>::new(r, g, b, a);
+        let ch = chrec(&r.hex(), &g.hex(), &b.hex(), &a.hex(), "");
+        let un = |c: Srgba<u8>| chrec(&c.red.hex(), &c.green.hex(), &c.blue.hex(), &c.alpha.hex(), "");
+        uint_one(rec, "Rgba", PackedRgba::<u32>::pack(c), ch.clone(), |p| un(p.unpack()));
+        uint_one(rec, "Argb", PackedArgb::<u32>::pack(c), ch.clone(), |p| un(p.unpack()));
+        uint_one(rec, "Bgra", PackedBgra::<u32>::pack(c), ch.clone(), |p| un(p.unpack()));
+        uint_one(rec, "Abgr", PackedAbgr::<u32>::pack(c), ch.clone(), |p| un(p.unpack()));
+        let la = Lumaa::<SrgbStd, u8>::new(r, a);
+        let chl = chrec("", "", "", &a.hex(), &r.hex());
+        let unl = |c: Lumaa<SrgbStd, u8>| chrec("", "", "", &c.alpha.hex(), &c.luma.hex());
+        uint_one(rec, "La", PackedLumaa::<u16>::pack(la), chl.clone(), |p| unl(p.unpack()));
+        uint_one(rec, "Al", PackedAluma::<u16>::pack(la), chl.clone(), |p| unl(p.unpack()));
+        uint_one(rec, "L", Luma::<SrgbStd, u8>::new(r), chrec("", "", "", "", &r.hex()), |c| chrec("", "", "", "", &c.luma.hex()));
+        let w16 = ((r as u16) << 8) | g as u16;
+        uint_one(rec, "L", Luma::<SrgbStd, u16>::new(w16), chrec("", "", "", "", &format!("{:04x}", w16)), |c| chrec("", "", "", "", &format!("{:04x}", c.luma)));
+        let w32 = if k < ex8.len() { [0u32, u32::MAX, 1, 1 << 31, 0x7fff_ffff, 0xffff_fffe][k] } else { rng.next() as u32 };
+        uint_one(rec, "L", Luma::<SrgbStd, u32>::new(w32), chrec("", "", "", "", &format!("{:08x}", w32)), |c| chrec("", "", "", "", &format!("{:08x}", c.luma)));
+        let w64 = if k < ex8.len() { [0u64, u64::MAX, 1, 1 << 63, (1 << 53) + 1, u64::MAX - 1][k] } else { rng.next() };
+        uint_one(rec, "L", Luma::<SrgbStd, u64>::new(w64), chrec("", "", "", "", &format!("{:016x}", w64)), |c| chrec("", "", "", "", &format!("{:016x}", c.luma)));
+    }
+}
+
+// ------------------------------------------------------------------------------------------------ replay of TLC-emitted trees
+
+fn tree_tokens(t: &Value) -> Option<Vec<Tok>> {
+    let mut toks = vec![];
+    for x in nitems(t) {
+        let n = match nk(x) { "num" => x, "newtype" if nk(&nitems(x)[0]) == "num" => &nitems(x)[0], _ => return None };
+        toks.push(Tok::Num(nname(n).to_string(), nnum(n).to_string()));
+    }
+    Some(toks)
+}
+
+fn replay_case<C: Col, W: Wrap<C>>(rec: &mut Rec, case: &Value) {
+    let tree = &case["tree"];
+    let opt = case["opt"].as_bool().unwrap_or(false);
+    let decl = C::decl();
+    let huef = if C::hue() > 0 { Some(decl[C::hue() - 1]) } else { None };
+    let mut emit = |fmt: &str, r: Att<W::V>| {
+        let (out, outa) = match &r {
+            Ok(Ok(v)) => { let (c, a) = W::split(v); (c.iter().map(|x| x.hex()).collect::<Vec<_>>(), a.map(|x| x.hex()).unwrap_or_default()) }
+            _ => (vec![], String::new()),
+        };
+        rec.ev(json!({"ev": "de", "fmt": fmt, "ty": C::TY, "prim": C::P::NAME, "wrap": W::NAME, "opt": opt as u8, "label": case["label"],
+            "tree": tree, "ok": okstr(&r), "out": out, "outa": outa, "msg": msg(&r)}));
+    };
+    emit("rec", att(|| if opt { hold_tree::<C, W>(&hold_node(tree)) } else { de_tree::<W::V>(tree) }));
+    let jt = tree_json(tree);
+    emit("json", att(|| if opt { hold_json::<C, W>(&format!("{{\"c\":{}}}", jt)) } else { de_json::<W::V>(&jt) }));
+    if nk(tree) == "struct" && !bare_hue_in(tree, huef) {
+        if let Some(rt) = tree_ron(tree, true) {
+            emit("ron", att(|| if opt { hold_ron::<C, W>(&format!("(c:{})", rt)) } else { de_ron::<W::V>(&rt) }));
+        }
+    }
+    if matches!(nk(tree), "tuple" | "tuple_struct") {
+        if let Some(toks) = tree_tokens(tree) {
+            emit("compact", att(|| if opt { hold_compact::<C, W>(&toks) } else { de_compact::<W::V>(&toks) }));
+        }
+    }
+}
+
+// ------------------------------------------------------------------------------------------------ the type universe
+
+type TRgb<T> = palette::rgb::Rgb<SrgbStd, T>;
+type TLuma<T> = palette::luma::Luma<SrgbStd, T>;
+type THsl<T> = palette::Hsl<SrgbStd, T>;
+type THsv<T> = palette::Hsv<SrgbStd, T>;
+type THwb<T> = palette::Hwb<SrgbStd, T>;
+type THsluv<T> = palette::Hsluv<D65, T>;
+type TLab<T> = palette::Lab<D65, T>;
+type TLch<T> = palette::Lch<D65, T>;
+type TLuv<T> = palette::Luv<D65, T>;
+type TLchuv<T> = palette::Lchuv<D65, T>;
+type TXyz<T> = palette::Xyz<D65, T>;
+type TYxy<T> = palette::Yxy<D65, T>;
+type TOklab<T> = palette::Oklab<T>;
+type TOklch<T> = palette::Oklch<T>;
+type TOkhsl<T> = palette::Okhsl<T>;
+type TOkhsv<T> = palette::Okhsv<T>;
+type TOkhwb<T> = palette::Okhwb<T>;
+type TLms<T> = palette::lms::Lms<LmsMeta, T>;
+type TJab<T> = palette::cam16::Cam16UcsJab<T>;
+type TJmh<T> = palette::cam16::Cam16UcsJmh<T>;
+
+/// (table name, PreAlpha exists, u8/u16 components driven)
+const UNIVERSE: &[(&str, bool, bool)] = &[
+    ("Rgb", true, true), ("Luma", true, true), ("Lab", true, false), ("Luv", true, false), ("Xyz", true, false), ("Yxy", true, false),
+    ("Oklab", true, false), ("Lms", true, false), ("Cam16UcsJab", true, false),
+    ("Hsl", false, false), ("Hsv", false, false), ("Hwb", false, false), ("Hsluv", false, false), ("Lch", false, false), ("Lchuv", false, false),
+    ("Oklch", false, false), ("Okhsl", false, false), ("Okhsv", false, false), ("Okhwb", false, false), ("Cam16UcsJmh", false, false),
+    ("M2", false, false), ("M4", false, false), ("M4h", false, false),
+];
+fn valid(ty: &str, prim: &str, wrap: &str) -> bool {
+    match UNIVERSE.iter().find(|u| u.0 == ty) {
+        None => false,
+        Some(&(_, pre, ints)) => match (prim, wrap) {
+            ("f32" | "f64", "plain" | "alpha") => true,
+            ("f32" | "f64", "prealpha") => pre,
+            ("u8" | "u16", "plain" | "alpha") => ints,
+            _ => false,
+        },
+    }
+}
+
+macro_rules! dispatch {
+    ($ty:expr, $prim:expr, $wrap:expr, $f:ident $args:tt) => {
+        dispatch!(@go $ty, $prim, $wrap, $f $args;
+            pre: TRgb "Rgb", TLuma "Luma", TLab "Lab", TLuv "Luv", TXyz "Xyz", TYxy "Yxy", TOklab "Oklab", TLms "Lms", TJab "Cam16UcsJab";
+            nopre: THsl "Hsl", THsv "Hsv", THwb "Hwb", THsluv "Hsluv", TLch "Lch", TLchuv "Lchuv", TOklch "Oklch", TOkhsl "Okhsl",
+                   TOkhsv "Okhsv", TOkhwb "Okhwb", TJmh "Cam16UcsJmh", M2 "M2", M4 "M4", M4h "M4h";
+            ints: TRgb "Rgb", TLuma "Luma")
+    };
+    (@go $ty:expr, $prim:expr, $wrap:expr, $f:ident $args:tt; pre: $($pa:ident $pn:literal),*; nopre: $($na:ident $nn:literal),*; ints: $($ia:ident $in:literal),*) => {
+        match ($ty, $prim, $wrap) {
+            $( ($pn, "f32", "plain") => $f::<$pa<f32>, WPlain> $args, ($pn, "f32", "alpha") => $f::<$pa<f32>, WAlpha> $args,
+               ($pn, "f32", "prealpha") => $f::<$pa<f32>, WPre> $args,
+               ($pn, "f64", "plain") => $f::<$pa<f64>, WPlain> $args, ($pn, "f64", "alpha") => $f::<$pa<f64>, WAlpha> $args,
+               ($pn, "f64", "prealpha") => $f::<$pa<f64>, WPre> $args, )*
+            $( ($nn, "f32", "plain") => $f::<$na<f32>, WPlain> $args, ($nn, "f32", "alpha") => $f::<$na<f32>, WAlpha> $args,
+               ($nn, "f64", "plain") => $f::<$na<f64>, WPlain> $args, ($nn, "f64", "alpha") => $f::<$na<f64>, WAlpha> $args, )*
+            $( ($in, "u8", "plain") => $f::<$ia<u8>, WPlain> $args, ($in, "u8", "alpha") => $f::<$ia<u8>, WAlpha> $args,
+               ($in, "u16", "plain") => $f::<$ia<u16>, WPlain> $args, ($in, "u16", "alpha") => $f::<$ia<u16>, WAlpha> $args, )*
+            other => panic!("unsupported combination {:?}", other),
+        }
+    };
+}
+
+fn main() {
+    let out = arg_or("--out", "-");
+    let seed = seed_from_env();
+    let mut rec = Rec::create(&out);
+    if let Some(hp) = arg("--hist") {
+        let text = std::fs::read_to_string(&hp).unwrap_or_else(|e| panic!("cannot read {}: {}", hp, e));
+        for line in text.lines().filter(|l| !l.trim().is_empty()) {
+            let case: Value = serde_json::from_str(line).expect("case json");
+            let (ty, prim, wrap) = (case["ty"].as_str().unwrap(), case["prim"].as_str().unwrap(), case["wrap"].as_str().unwrap());
+            dispatch!(ty, prim, wrap, replay_case(&mut rec, &case));
+        }
+    } else if flag("--sweep") {
+        let n: usize = arg_or("--n", "20").parse().expect("--n");
+        let only = arg("--types");
+        for &(ty, _, _) in UNIVERSE {
+            if let Some(o) = &only { if !o.split(',').any(|x| x == ty) { continue; } }
+            for prim in ["f32", "f64", "u8", "u16"] {
+                for wrap in ["plain", "alpha", "prealpha"] {
+                    if valid(ty, prim, wrap) {
+                        dispatch!(ty, prim, wrap, sweep(&mut rec, seed, n));
+                    }
+                }
+            }
+        }
+        if only.is_none() {
+            flat_shapes(&mut rec, seed, n);
+            uint_sweep(&mut rec, seed, n);
+            macro_rules! arrs { ($($a:ident),*) => {$(
+                arr_sweep::<$a<f32>, WAlpha>(&mut rec, seed, n / 2);
+                arr_sweep::<$a<f64>, WPlain>(&mut rec, seed, n / 2);
+            )*}; }
+            arrs!(TRgb, TLuma, THsl, THsv, THwb, THsluv, TLab, TLch, TLuv, TLchuv, TXyz, TYxy, TOklab, TOklch, TOkhsl, TOkhsv, TOkhwb, TLms, TJab, TJmh);
+            arr_sweep::<TRgb<f64>, WPre>(&mut rec, seed, n / 2);
+            arr_sweep::<TOklab<f32>, WPre>(&mut rec, seed, n / 2);
+            arr_sweep::<TRgb<u8>, WAlpha>(&mut rec, seed, n / 2);
+            arr_sweep::<TLuma<u16>, WAlpha>(&mut rec, seed, n / 2);
+        }
+    } else {
+        eprintln!("usage: serdeh --sweep --n <values> [--types a,b] --out f | serdeh --hist <cases> --out f");
+        std::process::exit(2);
+    }
+    let n = rec.finish();
+    eprintln!("serdeh: {} events", n);
 }
